@@ -212,7 +212,7 @@ func (p *Prog) Roots() *Roots {
 	for _, n := range []string{"LayerString", "LayerDump", "LayerGoString"} {
 		addAcc(p.Func("", n))
 	}
-	renderNames := map[string]bool{"String": true, "GoString": true, "Error": true, "Dump": true, "Format": true, "LayerType": true, "LayerContents": true, "LayerPayload": true, "Payload": true, "VerifyChecksum": true, "LinkFlow": true, "NetworkFlow": true, "TransportFlow": true, "CanDecode": true, "NextLayerType": true}
+	renderNames := map[string]bool{"String": true, "GoString": true, "Error": true, "Dump": true, "Format": true, "LayerType": true, "LayerContents": true, "LayerPayload": true, "Payload": true, "VerifyChecksum": true, "ComputeChecksum": true, "LinkFlow": true, "NetworkFlow": true, "TransportFlow": true, "CanDecode": true, "NextLayerType": true}
 	for _, rel := range []string{"", "layers"} {
 		pk := p.Pkg(rel)
 		if pk == nil {
